@@ -83,10 +83,11 @@ func checkC12(c *Ctx, r *Report) {
 	type bufType struct {
 		t, offField string
 		sizeVia     []string // calls that yield the current contents (len of which is the size)
+		contents    string   // or: the field whose (double) load is the contents
 	}
 	types_ := []bufType{
-		{"lib/store/memory.File", "lib/store/memory.File.off", []string{"(*lib/store/memory.File).getData"}},
-		{"lib/store/base.BufferReadWriter", "lib/store/base.BufferReadWriter.offset", []string{"(*github.com/aws/aws-sdk-go/aws.WriteAtBuffer).Bytes"}},
+		{"lib/store/memory.File", "lib/store/memory.File.off", []string{"(*lib/store/memory.File).getData"}, "lib/store/memory.File.data"},
+		{"lib/store/base.BufferReadWriter", "lib/store/base.BufferReadWriter.offset", []string{"(*github.com/aws/aws-sdk-go/aws.WriteAtBuffer).Bytes"}, ""},
 	}
 	s1 := r.Rule("S1", "E-EXHAUST+truth-table", "Seek: whence 0 ⇒ off; 1 ⇒ current offset + off; 2 ⇒ size + off; otherwise an error; negative result ⇒ error; the accepted value is stored as the offset and returned", 2)
 	s2 := r.Rule("S2", "E-GUARD", "ReadAt/WriteAt: every use of the offset parameter (slice bound, callee argument, arithmetic) is on the non-negative side of a test of that parameter; ReadAt slices only where offset < size was established", 4)
@@ -99,7 +100,7 @@ func checkC12(c *Ctx, r *Report) {
 			if !ok || calleeName(cl.Common()) != "builtin.len" {
 				return false
 			}
-			return mentionsCall(cl.Call.Args[0], bt.sizeVia...)
+			return mentionsCall(cl.Call.Args[0], bt.sizeVia...) || (bt.contents != "" && mentionsField(cl.Call.Args[0], bt.contents))
 		}
 		isSize := func(v ssa.Value) bool {
 			return mentions(v, func(w ssa.Value) bool {
